@@ -593,11 +593,29 @@ package gorums
 //@   props C13 C06 C07
 //@   nopanic C13
 //@   requires typeis(m, "*Message") ==> m.(*Message) != nil && m.(*Message).Metadata != nil
+//@   ghost which Int = 0
+//@   on call "c.gorumsUnmarshal"
+//@     assert[C13.a] typeis(m, "*Message") && arg1 == m.(*Message) && arg0 == b && which == 0
+//@     set which = 1
+//@   on call "c.unmarshaler.Unmarshal"
+//@     assert[C13.a] !typeis(m, "*Message") && arg0 == b && which == 0
+//@     set which = 2
+//@   ensures[C13.a] typeis(m, "*Message") ==> which == 1
+//@   ensures[C13.a] which == 0 ==> err != nil
 
 //@ func (Codec).Marshal
 //@   props C13 C06 C07
 //@   nopanic C13
 //@   requires typeis(m, "*Message") ==> m.(*Message) != nil
+//@   ghost which Int = 0
+//@   on call "c.gorumsMarshal"
+//@     assert[C13.a] typeis(m, "*Message") && arg0 == m.(*Message) && which == 0
+//@     set which = 1
+//@   on call "c.marshaler.Marshal"
+//@     assert[C13.a] !typeis(m, "*Message") && which == 0
+//@     set which = 2
+//@   ensures[C13.a] typeis(m, "*Message") ==> which == 1
+//@   ensures[C13.a] which == 0 ==> err != nil
 
 // ---------------------------------------------------------------- channel.go
 //
@@ -1169,8 +1187,17 @@ package gorums
 //@   ensures[C01.b] md.MessageID == old(md.MessageID) && md.Method == old(md.Method)
 
 //@ func SendMessage
-//@   props C04 C08
+//@   props C04 C08 C05
 //@   requires ctx != nil
+//@   ghost nsent Int = 0
+//@   ghost gaveUp Bool = false
+//@   on send "c" as v
+//@     assert[C04.e] v == msg && nsent == 0
+//@     set nsent = nsent + 1
+//@   on recv "ctx.Done()"
+//@     set gaveUp = true
+//@   ensures[C04.e] result == nil ==> nsent == 1
+//@   ensures[C08.c] result != nil ==> gaveUp && nsent == 0
 //@   blocks until ctx
 
 //@ func (*ServerCtx).Release
@@ -1231,14 +1258,21 @@ package gorums
 //@   invariant[C14.f] this.lookup != nil && forall(id, in(id, this.lookup) ==> this.lookup[id] != nil && this.lookup[id].id == id)
 
 //@ func (*RawNode).close
-//@   props C12
+//@   props C12 C15
 //@   nopanic C12
+//@   mode concurrent
 //@   requires n != nil
 //@   ghost cancelled Int = 0
+//@   ghost marked Bool = false
 //@   on call "n.cancel"
 //@     after set cancelled = cancelled + 1
+//@   on store "RawNode.closed"
+//@     assert[C12.f] held(n.connMu)
+//@     set marked = true
 //@   on call "n.conn.Close"
 //@     assert[C12.a] cancelled == 1 || n.cancel == nil
+//@     assert[C12.f] marked && nolocks()
+//@   ensures[C12.f] marked && n.closed
 //@   ensures[C12.a] n.cancel != nil ==> cancelled == 1
 //@   opt optional-hooks=1
 
@@ -1288,6 +1322,19 @@ package gorums
 //@   props C12
 //@   nopanic C12
 //@   requires m != nil
+//@   ghost once Int = 0
+//@   on call "m.closeOnce.Do"
+//@     set once = once + 1
+//@   ensures[C12.a] once == 1
+
+// the body Close runs once: every node is closed
+//@ func (*RawManager).Close$1
+//@   props C12
+//@   requires m != nil
+//@   ghost closedAll Int = 0
+//@   on call "m.closeNodeConns"
+//@     set closedAll = closedAll + 1
+//@   ensures[C12.a] closedAll == 1
 
 // ---------------------------------------------------------------- config.go, config_opts.go, mgr.go, node.go (C14)
 //
@@ -1376,21 +1423,33 @@ package gorums
 // C12.e / C18.c: a node is connected (channel, goroutines, connection) only after the duplicate check
 // has accepted it - a refused node would keep them and Close never reaches it; dial closes the
 // connection it replaces and stores the one it made.
+// D16: conn is assigned by dial only, under connMu, and never once close has set closed (a connection
+// made after Close would not be closed by anybody); close sets closed under connMu before it reads conn.
+//@ field RawNode.conn writers (*RawNode).dial props C15 C12 C18
+//@ field RawNode.closed guarded_by connMu props C15 C12
+//@ monitor RawNode.connMu guards closed allows DialContext Close props C15 C12
 //@ func (*RawNode).dial
-//@   props C12 C18
+//@   props C12 C15 C18
+//@   mode concurrent
 //@   requires n != nil
-//@   ghost hadConn Bool = false
 //@   ghost closedOld Bool = false
 //@   ghost dialed Int = 0
+//@   ghost ndial Int = 0
+//@   ghost wasClosed Bool = false
+//@   on call "n.connMu.Lock"
+//@     after set wasClosed = n.closed
 //@   on call "n.conn.Close"
-//@     assert[C18.c] recv == old(n.conn) && !closedOld
+//@     assert[C18.c] !closedOld && held(n.connMu)
 //@     set closedOld = true
 //@   on call "grpc.DialContext"
-//@     assert[C18.c] old(n.conn) != nil ==> closedOld
+//@     assert[C12.f] held(n.connMu) && !wasClosed
 //@     assert[C12.e] arg1 == n.addr
 //@     after set dialed = res0
-//@   ensures[C18.c] n.conn == dialed
-//@   ensures[C18.c] old(n.conn) != nil ==> closedOld
+//@     after set ndial = ndial + 1
+//@   on store "RawNode.conn"
+//@     assert[C15.f] held(n.connMu) && !wasClosed
+//@   ensures[C12.f] wasClosed ==> ndial == 0 && result != nil
+//@   ensures[C18.c] !wasClosed ==> ndial == 1 && n.conn == dialed
 //@   opt optional-hooks=1
 
 //@ func (*RawNode).connect
